@@ -128,6 +128,23 @@ type Subject struct {
 	Qual string // usual spelling of the package qualifier ("regexp"), "" for universe
 }
 
+// Family groups spellings of one API family so that finding keys do not depend on which member a corpus happens to use.
+func (s Subject) Family() string {
+	switch {
+	case s.Pkg == "" && (strings.HasPrefix(s.Name, "int") || strings.HasPrefix(s.Name, "uint")):
+		return "intN-cast"
+	case s.Pkg == "log" && strings.HasPrefix(s.Name, "Fatal"):
+		return "log.Fatal*"
+	case s.Pkg == "regexp" && (strings.HasPrefix(s.Name, "Compile") || strings.HasPrefix(s.Name, "MustCompile")):
+		return "regexp.Compile*"
+	case s.Pkg == "sort" && strings.HasPrefix(s.Name, "Slice"):
+		return "sort.Slice*"
+	case s.Pkg == "flag":
+		return "flag.*"
+	}
+	return s.Spelling()
+}
+
 func (s Subject) Spelling() string {
 	if s.Qual == "" {
 		return s.Name
@@ -257,7 +274,8 @@ func calleeSpelling(fun ast.Expr) (string, *ast.Ident, *ast.Ident) {
 
 // C20Finding is a diagnostic about a namesake.
 type C20Finding struct {
-	Subject  string
+	Subject  string // family, part of the finding key
+	Spelled  string
 	Resolves string
 }
 
@@ -322,23 +340,31 @@ func CheckC20(p *Pkg, f *File, checker string, d Diag) *C20Finding {
 	}
 	sp, qual, name := calleeSpelling(call.Fun)
 	sub := bySpelling[sp]
-	if sub.Qual == "" {
+	// the callee is "real" when it resolves to the universe object or to a function (path, name) that is
+	// itself one of the checker's subjects (e.g. bytes imported under the name strings and a rule about bytes.Replace)
+	real := map[[2]string]bool{}
+	for _, s := range subs {
+		real[[2]string{s.Pkg, s.Name}] = true
+	}
+	if qual == nil {
 		obj := p.Info.Uses[name]
 		switch o := obj.(type) {
 		case *types.Builtin:
-			return nil
+			if real[[2]string{"", o.Name()}] {
+				return nil
+			}
 		case *types.TypeName:
-			if o.Pkg() == nil { // universe type (truncateCmp's casts)
+			if o.Pkg() == nil && real[[2]string{"", o.Name()}] { // universe type (truncateCmp's casts)
 				return nil
 			}
 		}
-		return &C20Finding{Subject: sub.Spelling(), Resolves: describeObj(obj)}
+		return &C20Finding{Subject: sub.Family(), Spelled: sp, Resolves: describeObj(obj)}
 	}
 	qobj := p.Info.Uses[qual]
-	if pn, ok := qobj.(*types.PkgName); ok && pn.Imported().Path() == sub.Pkg {
+	if pn, ok := qobj.(*types.PkgName); ok && real[[2]string{pn.Imported().Path(), name.Name}] {
 		return nil
 	}
-	return &C20Finding{Subject: sub.Spelling(), Resolves: describeObj(qobj) + " ." + name.Name}
+	return &C20Finding{Subject: sub.Family(), Spelled: sp, Resolves: describeObj(qobj) + " ." + name.Name}
 }
 
 func describeObj(o types.Object) string {
